@@ -104,12 +104,13 @@ Theorem c20_acceptor_adopts_heartbtint_on_every_trace : forall c es,
 Proof. exact c20_adopt_never_fails. Qed.
 
 (* non-vacuity: an acceptor configured with 30 s accepts a Logon (number 1, 141=Y) announcing 7 s; in the second event the
-   guard of the clause holds (logon state before, OnLogon called) and the interval is 7 afterwards *)
+   guard of the clause holds (logon state before, OnLogon called) and the interval is 7 afterwards; the predicates report
+   nothing *)
 Example c20_adopt_example :
   let es := [EConnect; EIncoming (lgp_logon 1 7)] in
-  existsb reset_logon_ahead es = false /\
   map (fun o => (ob_st o, ob_hb o, ob_snd o, ob_tgt o, existsb (fun x => match x with CbOnLogon => true | _ => false end) (ob_cbs o),
                  map (fun w => (o_type w, o_seq w, field_of 141 (o_body w))) (ob_wire o)))
       (map obs_of (run_trace es (init_sess lgp_cfg)))
-  = [(ShLogon, 30, 1, 1, false, []); (ShInSession, 7, 2, 2, true, [(T_LOGON, 1, Some lgp_Y)])].
+  = [(ShLogon, 30, 1, 1, false, []); (ShInSession, 7, 2, 2, true, [(T_LOGON, 1, Some lgp_Y)])]
+  /\ c07_check lgp_cfg (lgp_trace es) = [] /\ c20_check lgp_cfg (lgp_trace es) = [].
 Proof. exact lgp_accept_example. Qed.
